@@ -56,6 +56,10 @@ func (a *OrStrategy) Compute(snapshots <-chan *asset.Snapshot) <-chan Action {
 				result <- Hold
 			}
 		}
+
+		for _, source := range sources {
+			go helper.Drain(source)
+		}
 	}()
 
 	return result
